@@ -26,7 +26,7 @@ RULE = ("plan = object of one of the four classes (Vector of any kind, DataFrame
         "label and contains '...' iff cut; ListOfDicts text is the JSON of head(max_items) plus the total iff cut; GeoJSON "
         "geometry cells render as <Type>. Non-trivial: ≥ 2 columns wrapping into ≥ 2 blocks, or a wide/combining character, "
         "or rows cut, or a 0-row / 0-column shape. Distinct = plan hash.")
-CASES = {"quick": 1000, "thorough": 6000}
+CASES = {"quick": 1000, "thorough": 12000}
 FUZZ_RUNS = {"thorough": 20000}     # coverage-guided leg, 8 processes (vlib/fuzz.py)
 
 WIDE = ["日本", "한글", "ａｂ", "é", "a​b", "😀", "ﬁ", "İ"]
